@@ -319,6 +319,12 @@ class LogSpace(Structured):
         # ---- logs ----------------------------------------------------------------------------
         if npname in ('log',) and e.args:
             a = e.args[0]
+            if isinstance(a, ast.Name):
+                # a local holding a hoisted sub-expression (`mass = x0.sum()`): look through it
+                from ..normalise import Defs, expand
+                if getattr(self, '_defs', None) is None:
+                    self._defs = Defs(self.fi.body)
+                a = expand(a, self._defs)
             if isinstance(a, (ast.Name, ast.Attribute)) or isinstance(a, ast.Constant):
                 return Form({(1, ('logt', U(a)))})
             if isinstance(a, ast.Call) and isinstance(a.func, ast.Attribute) and a.func.attr == 'sum' and not a.args:
